@@ -637,8 +637,38 @@ def At(x, i):
             v = x.items[k]
             t = v if t is None else Ite(compare("==", i, k), v, t)
         return t
-    v = x[int(i)]
+    i = int(i)
+    if not (0 <= i < len(x)):
+        return UNDEF      # specs are total: an out-of-range access yields a value that satisfies nothing
+    v = x[i]
     return v.item() if hasattr(v, "item") else v
+
+
+class _Undef:
+    """result of an out-of-range access in native evaluation of a spec (eager evaluation of guarded clauses)"""
+
+    def _s(self, *a):
+        return self
+
+    def _f(self, *a):
+        return False
+
+    __add__ = __radd__ = __sub__ = __rsub__ = __mul__ = __rmul__ = __truediv__ = __rtruediv__ = _s
+    __floordiv__ = __rfloordiv__ = __mod__ = __rmod__ = __pow__ = __neg__ = __getitem__ = _s
+    __lt__ = __le__ = __gt__ = __ge__ = __eq__ = __ne__ = __bool__ = _f
+    __hash__ = object.__hash__
+
+    def __float__(self):
+        return float("nan")
+
+    def __int__(self):
+        return -(10 ** 9)
+
+    def __len__(self):
+        return 0
+
+
+UNDEF = _Undef()
 
 
 def And(*xs):
